@@ -35,6 +35,13 @@ def int32 (i : Int) : UInt32 := UInt32.ofNat (i % 4294967296).toNat
 def putU16 (dst : Bytes) (off : Int) (v : UInt16) : Bytes :=
   set (set dst off (v >>> 8).toUInt8) (off + 1) v.toUInt8
 
+/-- `strings.LastIndexByte` / `bytes.LastIndexByte`: index of the last occurrence of `c`, -1 if none -/
+def lastIndexByte : Bytes → UInt8 → Int
+  | [], _ => -1
+  | x :: xs, c =>
+    let r := lastIndexByte xs c
+    if r ≥ 0 then r + 1 else if x == c then 0 else -1
+
 /-- `binary.BigEndian.Uint16(b)` -/
 def getU16 (b : Bytes) : UInt16 := ((idx b 0).toUInt16 <<< 8) ||| (idx b 1).toUInt16
 
